@@ -9,11 +9,15 @@
    from RFC 9420 7.8 (Model/TreeHashRFC.v, Gallina SHA-2) and compared with the group
    context on every epoch of every generated history; the model's trees are compared with the
    exported trees node by node (blank / leaf / parent with its unmerged list).
+   Also proved for EVERY commit (proposals, then the optional path): the unmerged-leaf invariant
+   WF3 (every unmerged leaf listed at a parent is a non-blank leaf below it; theorems in C02)
+   and WF5: every non-blank parent has a member in each of its two subtrees - so a node of a
+   committer's path whose copath resolution is empty is blank.
    NOT proved (validated on the implementation by the library's own joiner / observer
    validation of every exported tree): parent-hash chains and the unmerged-leaf/parent-hash
    consistency across adds and removes - see DESIGN.md.  Statements only. *)
 From Coq Require Import NArith List.
-From MlsV Require Import Res TreeMathGen Tree TreeProofs.
+From MlsV Require Import Res TreeMathGen TreeMathProofs Tree TreeProofs TreeWF Decap DecapProofs TreeWF5.
 Import ListNotations.
 Local Open Scope N_scope.
 
@@ -41,6 +45,26 @@ Proof. exact next_empty_leaf_leftmost. Qed.
 Theorem C08_add_uses_next_empty_leaf : forall t id start t' idx,
   add_leaf t id start = TOk (t', idx) -> idx = next_empty_leaf t start.
 Proof. exact add_leaf_index. Qed.
+
+Theorem C08_every_parent_has_members_on_both_sides :
+  forall t removes updates adds path t' added,
+  wf3 t -> wf5 t -> shape_ok t -> tlen t + 2 * N.of_nat (length adds) < 2 ^ 25 ->
+  apply_commit t removes updates adds path = TOk (t', added) -> wf5 t'.
+Proof. exact wf5_apply_commit. Qed.
+Print Assumptions C08_every_parent_has_members_on_both_sides.
+
+Theorem C08_initial_tree_wf5 : forall id, wf5 [Some (Leaf id)].
+Proof. exact wf5_single. Qed.
+Print Assumptions C08_initial_tree_wf5.
+
+Theorem C08_filtered_path_node_is_blank :
+  forall t s k,
+  shape_ok t -> wf5 t -> (k <= 29)%nat -> (sz k + 1 <= 2 * length t + 4)%nat ->
+  get t (2 * s) <> None ->
+  resolution_empty t (node (N.of_nat k) (sib (s / 2 ^ N.of_nat k))) = Ok true ->
+  get t (node (N.of_nat k + 1) (s / 2 ^ (N.of_nat k + 1))) = None.
+Proof. exact filtered_node_is_blank. Qed.
+Print Assumptions C08_filtered_path_node_is_blank.
 
 (* non-vacuity: remove the middle member of three, then add one: it takes the freed slot *)
 Example C08_ex :
